@@ -28,7 +28,7 @@ PLANS = {
  'C02': {
   'level': 'exploration', 'steps': [e3('gcm')], 'eval_stats': ['calls_gcm'], 'distinct_key': 'shape',
   'rule': "exhaustive grid: len in [0,1100] + carry windows around 4096 and 65536, AAD length set, tag in {8,12,16}, data offsets, in-place/disjoint, x {sse,avx_gen2,avx_gen4,vaes_avx512} x {regular,nt} x {enc,dec} x {128,256}; a case is distinct by (entry point, len, aad, tag, placement, offset, in-place); every one is compared with the bit-serial SP 800-38D reference",
-  'bound': {'quick': 'len<=1100 + 4096+-20 + 65536+-17; 9 AAD lengths; 2 offsets', 'thorough': 'len<=1100 + 4096+-320 + 65536+-64 + six lengths around 2^20; 49 AAD lengths; 16 offsets'},
+  'bound': {'quick': 'len<=1100 + 4096+-20 + 65536+-17; 12 AAD lengths (0..513); 2 offsets', 'thorough': 'len<=1100 + 4096+-320 + 65536+-64 + six lengths around 2^20; 49 AAD lengths; 16 offsets'},
   'deadline': {'quick': 240, 'thorough': 2400}, 'assumptions': A_COMMON,
  },
  'C03': {
@@ -58,14 +58,14 @@ PLANS = {
  'C07': {
   'level': 'exploration', 'steps': [e2('gcms')], 'eval_stats': ['streams'], 'distinct_key': 'shape',
   'rule': "init/update*/finalize on every GCM family x {128,256} x {enc,dec}: (a) all compositions of len<=64 (96 thorough) into 3 pieces incl. empty ones, (b) carried residue r in [0,15] x fill amounts {16-r-1,16-r,16-r+1,+15..+769} x third piece, (c) first piece 0..48 followed by loop-boundary pieces {127..2048}, (d) non-temporal update under its documented rule (64-byte aligned, non-final pieces multiples of 64); output compared with the same family's one-shot call after every update (prefix) and after finalize (tag)",
-  'bound': {'quick': 'sum<=64 for compositions', 'thorough': 'sum<=96'},
+  'bound': {'quick': 'sum<=64 for compositions', 'thorough': 'sum<=144 for 3 pieces; 4 pieces with l1,l2,l3<=33; pairs of loop-boundary pieces'},
   'deadline': {'quick': 240, 'thorough': 3000}, 'assumptions': A_COMMON,
  },
  'C09': {
   'level': 'model_checking', 'steps': [e2('roll', 16, 16)], 'eval_stats': ['transitions', 'chain_calls', 'mask_gen_calls'], 'distinct_key': 'roll_state',
   'state_stats': [], 'state_distinct': ['roll_state'], 'transition_stats': ['transitions'], 'trace_stats': ['transitions', 'chain_calls'],
   'rule': "explicit-state search on the real isal_rolling_hash2_run: state = stream position p with the canonical (hash, last w bytes) restored, transition = run(max_len m) for every m in [0,N-p]; for w in [1,48] x scan routine {base,_00,_04} (dispatch slot re-pointed) x 11 (mask,trigger) pairs; after every transition (offset, match) must equal the definition from the pinned table and the resulting state must be the canonical state of position p+offset, which by induction covers every partition of the stream into any number of calls; chained runs without state restore validate the canonical-state abstraction against states genuinely reached from reset; plus exhaustive mask_gen sweep",
-  'bound': {'quick': 'stream length w+70', 'thorough': 'stream length w+150'},
+  'bound': {'quick': 'stream length w+70', 'thorough': 'stream length w+340'},
   'deadline': {'quick': 240, 'thorough': 3000}, 'assumptions': A_COMMON + ['history bytes at index >= w are not part of the canonical state (never read for i < w by construction of the API)'],
  },
  'C06': {
